@@ -71,7 +71,7 @@ func (g *Gen) assumePkgInvs(st *BState, fn *ssa.Function) {
 		t := g.invInstance(gi, fn, st.heap)
 		// recorded, not added to the path condition: every obligation generated while this instance is
 		// the latest one known to hold gets it as a hypothesis (see addObl)
-		st.inv[gi.Name] = t
+		st.setInv(gi.Name, t)
 	}
 }
 
@@ -88,7 +88,7 @@ func (g *Gen) checkPkgInvsAgainst(st *BState, class, prefix, pos, guard string, 
 		}
 		if (known[gi.Name] != "" && invSig(known[gi.Name]) == invSig(t)) || (st.inv[gi.Name] != "" && invSig(st.inv[gi.Name]) == invSig(t)) {
 			// only the allocation map moved on: holds by monotonicity; make the current instance available
-			st.inv[gi.Name] = t
+			st.setInv(gi.Name, t)
 			continue
 		}
 		goal := t
@@ -97,7 +97,7 @@ func (g *Gen) checkPkgInvsAgainst(st *BState, class, prefix, pos, guard string, 
 		}
 		g.addObl(st, class, prefix+gi.Name, pos, g.allProps(), goal, gi.Src)
 		if guard == "true" {
-			st.inv[gi.Name] = t
+			st.setInv(gi.Name, t)
 		} else {
 			g.assume(st, goal)
 		}
